@@ -4,10 +4,9 @@
 import json, glob, os, re
 R = os.path.dirname(os.path.dirname(os.path.abspath(__file__)))
 pass1 = {}
-p1 = os.path.join(R, "seeded", "PASS1-before-strengthening.log")
-if os.path.exists(p1):
+for p1 in sorted(glob.glob(os.path.join(R, "seeded", "PASS1*-before-strengthening.log"))):
     for l in open(p1):
-        m = re.match(r"(CAUGHT|MISSED|REJECT) (C\d\d-m\d)( by(.*))?", l)
+        m = re.match(r"(CAUGHT|MISSED|REJECT|INVALID) (C\d\d-(?:r\d)?m\d)( by(.*))?", l)
         if m:
             pass1[m.group(2)] = (m.group(1), (m.group(4) or "").strip())
 rows = []
@@ -23,19 +22,21 @@ for f in sorted(glob.glob(os.path.join(R, "seeded", "C*", "meta.json"))):
             break
     first = re.sub(r"[`|]", "", first)[:150]
     b = pass1.get(name, ("-", ""))
-    before = {"CAUGHT": "caught by " + b[1], "MISSED": "missed by all 20", "REJECT": "-", "-": "-"}[b[0]]
+    before = {"CAUGHT": "caught by " + b[1], "MISSED": "missed by all 20", "REJECT": "-", "INVALID": "-", "-": "-"}[b[0]]
     rows.append(f"| {name} | {m['breaks_property']} | {first} | {before} | {' '.join(m['caught_by']) or '**missed**'} |")
 out = ["## 8. Which checks catch which changes (as built)", "",
 "### 8.1 Changes written by independent sub-agents",
 "",
-"Twenty sub-agents were each given the text of one property and a scratch git worktree of /repo",
+"In each of three rounds twenty sub-agents were each given the text of one property and a scratch git worktree of /repo",
 "(nothing from /verif) and asked for two changes that break the property, still compile and pass the",
-"279 tests, and need something specific to manifest. Every change below was re-confirmed by",
+"279 tests, and need something specific to manifest; from the second round on they were also given the one-line",
+"summaries of the earlier changes to the same property and told to use other mechanisms (names `C<nn>-m<i>`: first",
+"round, `-r2m<i>`, `-r3m<i>`: later rounds). Every change below was re-confirmed by",
 "`tools/ingest_seeded.sh` on a scratch copy (applies to HEAD, builds, test-suite passes, the agent's",
 "demonstration passes without and fails with the change) before the checks were run against it with",
 "`VERIF_REPO`; patch, demonstration, note and `meta.json` are under `seeded/<name>/`. 'first pass' is the",
-"result against the checks as they were when the agents were started (all 20 quick checks were run",
-"when the owning one missed); 'now' is the owning check of the committed machinery (quick tier).",
+"result against the checks as they were when the agents of that round were started (the owning check first, then",
+"all 20 quick checks when it missed; `seeded/PASS1*-before-strengthening.log`); 'now' is the committed machinery (quick tier).",
 "",
 "| change | property | what it does (first line of the agent's note) | first pass | caught now by |",
 "|---|---|---|---|---|"] + rows + [""]
